@@ -9,13 +9,15 @@ pub mod c06;
 pub mod c07;
 pub mod c08;
 pub mod c09;
+pub mod c10;
+pub mod c13;
 pub mod c14;
 pub mod wire;
 pub mod peer;
 pub mod common;
 
 pub fn ids() -> Vec<&'static str> {
-    vec!["C01", "C02", "C03", "C04", "C06", "C07", "C08", "C09", "C14"]
+    vec!["C01", "C02", "C03", "C04", "C06", "C07", "C08", "C09", "C10", "C13", "C14"]
 }
 pub fn get(id: &str) -> Option<Box<dyn Check>> {
     match id {
@@ -27,6 +29,8 @@ pub fn get(id: &str) -> Option<Box<dyn Check>> {
         "C07" => Some(Box::new(c07::C07)),
         "C08" => Some(Box::new(c08::C08)),
         "C09" => Some(Box::new(c09::C09)),
+        "C10" => Some(Box::new(c10::C10)),
+        "C13" => Some(Box::new(c13::C13)),
         "C14" => Some(Box::new(c14::C14)),
         _ => None,
     }
